@@ -152,6 +152,45 @@ def run(ctx):
             violations.append(Violation("set of channels read differs from the set written: %r" % (objs,), dict(kind="e2e", objects=objs)))
         if len(violations) > 4:
             break
+    # object lists of different segments whose paths concatenate to the same text (two groups x, y vs one channel x/y): anything that
+    # identifies an object list by its joined paths aliases them; seen through the lazy API, which indexes objects per segment
+    counts["joined_paths"] = 0
+    if model is not None:
+        import struct
+        import gen_files as gf
+        for _ in range(ctx.n(8, 200)):
+            x, y = rnd.choice(["a", "it's", "p q", "ü", rand_name(rnd) or "z"]), rnd.choice(["b", "a", "'", "日", rand_name(rnd) or "w"])
+            try:
+                (x + y).encode("utf-8")
+            except UnicodeEncodeError:
+                continue
+            base = dict(hasMeta=True, newList=True, interleaved=False, big=False, rawFlag=True, daqmxFlag=False, lengthUnknown=False, version=4713, padding=0)
+            v = lambda n: [struct.pack("<i", rnd.randint(-99, 99)) for _ in range(n)]
+            xy, cd = gf.path_of(x, y), gf.path_of("c", "d")
+            if xy == cd:
+                continue
+            s1 = dict(base, objs=[dict(path=gf.path_of(), idx=("N",), props=[]), dict(path=xy, idx=("F", 3, 2, 0), props=[]), dict(path=cd, idx=("F", 3, 2, 0), props=[])], chunks=[[v(2), v(2)]])
+            s2 = dict(base, objs=[dict(path=gf.path_of(), idx=("N",), props=[]), dict(path=gf.path_of(x), idx=("N",), props=[]), dict(path=gf.path_of(y), idx=("N",), props=[]),
+                                  dict(path=cd, idx=("F", 3, 3, 0), props=[])], chunks=[[v(3)], [v(3)]])
+            segs2 = [s1, s2] if rnd.random() < 0.5 else [s2, s1]
+            e = model.ask(gf.to_line(segs2))
+            if not e.get("ok") or not e.get("wf"):
+                continue
+            data = bytes.fromhex(e["file"])
+            counts["joined_paths"] += 1
+            try:
+                fe = TdmsFile.read(io.BytesIO(data))
+                with TdmsFile.open(io.BytesIO(data)) as fl:
+                    for g_, c_ in ((x, y), ("c", "d")):
+                        a, b = [int(q) for q in fe[g_][c_][:]], [int(q) for q in fl[g_][c_][:]]
+                        tail = [int(q) for q in fl[g_][c_][-2:]]
+                        if a != b or tail != a[-2:]:
+                            violations.append(Violation("channel (%r, %r): lazy read %r / tail %r, eager read %r, in a file whose segments list %r and the groups %r, %r" % (
+                                g_, c_, b, tail, a, (x, y), x, y), dict(kind="joined", file=data.hex(), names=[x, y])))
+            except Exception as ex:  # noqa
+                violations.append(Violation("reading a file with groups %r, %r and channel (%r, %r) raised %s: %s" % (x, y, x, y, type(ex).__name__, ex), dict(kind="joined", file=data.hex(), names=[x, y])))
+            if len(violations) > 4:
+                break
     # one GroupObject / ChannelObject reused for several segments, renamed in between (group and channel are public attributes)
     counts["reused_objects"] = 0
     for _ in range(ctx.n(20, 400)):
